@@ -686,6 +686,10 @@ func TestVerifKeys(t *testing.T) {
 			vkSameNameCase(rng, out, idx, report)
 			continue
 		}
+		if idx%16 == 3 {
+			vkNamedKindsCase(rng, out, idx, report)
+			continue
+		}
 		g := &vkGen{rng: rng}
 		var top *vkType
 		switch rng.Intn(10) {
@@ -930,4 +934,81 @@ func vkSameNameCase(rng *vRand, out *vOut, idx int64, report func(int64, string,
 		}
 	}
 	out.nontrivial(vHashStrings([]string{"same-name", k}))
+}
+
+// Named (defined) string and slice types, as generated code and hand-written
+// messages use them (type ID string; type IDs []ID): the kind is what counts.
+type vkID string
+type vkIDs []vkID
+type vkTags []string
+type vkNamedInner struct {
+	Key  vkID
+	Tags vkTags
+}
+type vkNamedMsg struct {
+	Id    vkID
+	Ids   vkIDs
+	Raw   []vkID
+	Tags  vkTags
+	Inner *vkNamedInner
+	Items []*vkNamedInner
+	Num   int
+}
+
+func vkNamedKindsCase(rng *vRand, out *vOut, idx int64, report func(int64, string, string, string, []string)) {
+	k := fmt.Sprintf("n%d", rng.Intn(1000))
+	nItems := rng.Intn(3)
+	m := &vkNamedMsg{Id: vkID(k), Ids: vkIDs{vkID(k + "a"), vkID(k + "b")}, Raw: []vkID{vkID(k + "r")}, Tags: vkTags{"t1", "t2", k}, Inner: &vkNamedInner{Key: vkID(k + "i"), Tags: vkTags{"it"}}}
+	var itemKeys, itemTags []string
+	for i := 0; i < nItems; i++ {
+		it := &vkNamedInner{Key: vkID(fmt.Sprintf("%s-item%d", k, i)), Tags: vkTags{fmt.Sprintf("tag%d", i), "x"}}
+		m.Items = append(m.Items, it)
+		itemKeys = append(itemKeys, string(it.Key))
+		itemTags = append(itemTags, it.Tags...)
+	}
+	if itemKeys == nil {
+		itemKeys, itemTags = []string{}, []string{}
+	}
+	if rng.Intn(4) == 0 {
+		m.Ids = nil
+	}
+	ids := []string{}
+	for _, x := range m.Ids {
+		ids = append(ids, string(x))
+	}
+	type probe struct {
+		loc  string
+		keys []string
+		err  bool
+	}
+	for _, p := range []probe{
+		{"id", []string{k}, false},
+		{"ids", ids, false},
+		{"raw", []string{k + "r"}, false},
+		{"tags", []string{"t1", "t2", k}, false},
+		{"inner.key", []string{k + "i"}, false},
+		{"inner.tags", []string{"it"}, false},
+		{"items.key", itemKeys, false},
+		{"items.tags", itemTags, false},
+		{"num", nil, true},
+		{"ids.x", nil, len(ids) > 0},
+	} {
+		res := vkCall(p.loc, m)
+		desc := []string{fmt.Sprintf("message: named-kind message %+v", *m), "locator: " + p.loc}
+		out.hit("C11.named-kinds")
+		if res.panicked {
+			report(idx, "C11.panic", vPanicKind(res.pval)+"@"+vPanicSite(res.pstack, "grpcgcp."), fmt.Sprintf("getAffinityKeysFromMessage panicked: %v", res.pval), desc)
+			return
+		}
+		if p.err {
+			if res.err == nil {
+				report(idx, "C11.error-expected", "named-kinds", fmt.Sprintf("got keys=%q without error for %s", res.keys, p.loc), desc)
+				return
+			}
+		} else if res.err != nil || !vkEqual(res.keys, p.keys) {
+			report(idx, "C11.keys", "named-kinds", fmt.Sprintf("locator %s: got keys=%q err=%v, want %q", p.loc, res.keys, res.err, p.keys), desc)
+			return
+		}
+	}
+	out.nontrivial(vHashStrings([]string{"named-kinds", k, fmt.Sprint(nItems)}))
 }
